@@ -183,3 +183,31 @@ func (sh *shaper) steps(m *ast.FuncDecl) []sexp.Node {
 	}
 	return out
 }
+
+// enumConsts reads the enum constants off the generated source: for every `const ( X T = "v" ... )`
+// block the list of values, as (("v" ...) ...).
+func enumConsts(f *ast.File) sexp.Node {
+	var out []sexp.Node
+	for _, d := range f.Decls {
+		gd, ok := d.(*ast.GenDecl)
+		if !ok || gd.Tok != token.CONST {
+			continue
+		}
+		var vals []sexp.Node
+		for _, sp := range gd.Specs {
+			vs, ok := sp.(*ast.ValueSpec)
+			if !ok {
+				continue
+			}
+			for _, v := range vs.Values {
+				if lit, ok := v.(*ast.BasicLit); ok && lit.Kind == token.STRING {
+					if u, err := strconv.Unquote(lit.Value); err == nil {
+						vals = append(vals, sexp.Str(u))
+					}
+				}
+			}
+		}
+		out = append(out, sexp.L(vals...))
+	}
+	return sexp.L(out...)
+}
